@@ -9,6 +9,7 @@ kernel's rendering.
 
 from hypothesis import strategies as st
 
+from vlib import gen
 from vlib import simk
 from vlib.runner import Property
 from vlib.runner import Result
@@ -56,6 +57,9 @@ def strategy(tier):
         st.sampled_from([b"short", b"12345678901234", b"", b"py"]),
         st.binary(min_size=15, max_size=15).map(
             lambda b: b.replace(b"\0", b"x").replace(b"/", b"_")),
+        # names with parentheses / spaces / state-letter look-alikes: the
+        # zombie probe and name() must still find the real state field
+        gen.comm().map(lambda b: b.replace(b"/", b"_")),
     )
     return st.fixed_dictionaries(dict(
         comm=comm_st,
@@ -198,6 +202,8 @@ def run_case(case):
         if kind != "zombie":
             raise Violation("cmdline-zombie", f"zombie cmdline gave {kind} {val!r}")
         labels.add("zombie")
+        if b")" in comm:
+            labels.add("zombie-name-with-rpar")
     else:
         if kind != "ok":
             raise Violation("cmdline", f"{kind} {val!r}")
